@@ -19,7 +19,8 @@ Record MInv (m : list (name * info)) (q : nat) : Prop := {
   mi_names : NoDup (map fst m);
   mi_ids   : NoDup (ids_of m);
   mi_le    : forall n i, In (n, i) m -> i_id i <= q;
-  mi_par   : forall n i, In (n, i) m -> parent_ok m i
+  mi_par   : forall n i, In (n, i) m -> parent_ok m i;
+  mi_topo  : topo m
 }.
 
 Lemma inv_minv s : Inv s -> MInv (meta s) (seq s).
@@ -211,13 +212,9 @@ Proof.
 Qed.
 
 (* ---------- every acknowledged committed snapshot is usable as a parent after restart ---------- *)
-Lemma parents_total_m m q : MInv m q -> forall f p i,
-  lookup m p = Some i -> i_id i < f -> exists l, parents f m p = POk l.
+Lemma parents_total_m m q p i : MInv m q -> lookup m p = Some i -> exists l, parents (S (length m)) m p = POk l.
 Proof.
-  intros M. induction f as [|f IH]; intros p i L Lt; [lia|]. simpl. rewrite L.
-  destruct (i_parent i) as [pp|] eqn:P; [|eauto].
-  pose proof (mi_par _ _ M _ _ (lookup_in _ _ _ L)) as PO. unfold parent_ok in PO. rewrite P in PO.
-  destruct PO as [pi [LP [_ Lt']]]. destruct (IH pp pi LP) as [l R]; [lia|]. rewrite R. eauto.
+  intros M L. destruct (parents_topo m [] (mi_names _ _ M) (mi_topo _ _ M) p i L) as [l R]. simpl in R. eauto.
 Qed.
 
 Lemma usable_as_parent s' key n i l cbad :
@@ -230,16 +227,15 @@ Proof.
   intros M C L K LK HD NO LT. simpl. unfold do_prepare, create_snapshot. rewrite C.
   set (s1 := set_tmpc (set_dirs s' (DTemp (tmpc s') :: dirs s')) (S (tmpc s'))).
   assert (PT : exists lw, parents (fuel_of s1) (meta s1) n = POk lw).
-  { apply parents_total_m with (q := seq s') (i := i); auto.
-    unfold fuel_of. simpl. pose proof (mi_le _ _ M _ _ (lookup_in _ _ _ L)). lia. }
+  { unfold fuel_of. change (meta s1) with (meta s'). eapply parents_total_m; eauto. }
   destruct PT as [lw PT].
   assert (MC : meta_create s1 KActive key (Some n) = inr (mkSnap (S (seq s')) KActive lw)).
   { unfold meta_create. change (meta s1) with (meta s') in *. rewrite L, K. cbn [kind_eqb]. rewrite LK, PT.
     reflexivity. }
   rewrite MC. cbn [sn_parents sn_id].
   assert (LW : exists r, lw = i_id i :: r).
-  { unfold fuel_of in PT. simpl in PT. change (meta s1) with (meta s') in PT. rewrite L in PT.
-    destruct (i_parent i); [destruct (parents (seq s') (meta s') n0); inversion PT; eauto|inversion PT; eauto]. }
+  { pose proof (parents_chain _ _ _ _ PT) as CH. change (meta s1) with (meta s') in CH.
+    inversion CH as [p0 i0 L0 P0|p0 i0 q l0 L0 P0 C0]; subst; rewrite L in L0; inversion L0; subst; eauto. }
   destruct LW as [r ->].
   assert (H1 : has_dir s1 (DId (i_id i)) = true). { apply has_dir_in. simpl. right. exact HD. }
   rewrite H1. simpl negb. cbv iota.
